@@ -94,6 +94,7 @@ fn reference_of(sc: &ConnScenario) -> ConnScenario {
     r.client.coalesce = false;
     // (a length prefix with padding groups is the same frame: the undisturbed execution is the one with minimal prefixes)
     r.client.len_pad = 0;
+    r.client.eof_delay_ns = 0;
     r
 }
 
@@ -387,6 +388,16 @@ fn generate(rng: &mut Rng, index: u64) -> C08Sc {
         base.wplan.clear();
         sc.prelude = vec![abrupt_prelude(rng, &base)];
     }
+    // a client that hangs up in the middle: in the variant the hang-up is reported by the server's next write (BrokenPipe)
+    // while the end of stream reaches the reader only 20 s later - however it is noticed, the outcome is the same
+    if rng.chance(1, 12) {
+        sc.client.close_after = Some((rng.range(4, 7) as usize, false));
+        sc.client.cuts.clear();
+        sc.wplan = vec![WRule::BrokenOncePeerClosed];
+        sc.client.eof_delay_ns = secs(20);
+        sc.client.ka_default = crate::client::KaPolicy::Prompt;
+        sc.prelude.clear();
+    }
     // frames whose length prefix carries padding groups (fixed-width prefixes as some proxies write them)
     if rng.chance(1, 6) {
         sc.client.len_pad = rng.range(1, 3) as u8;
@@ -544,6 +555,19 @@ pub fn compare(sc: &ConnScenario, refo: &ConnOutcome, var: &ConnOutcome, rep: &m
         *rep.probes.entry("silent_client_keep_alive_schedule_moved_skipped".into()).or_insert(0) += 1;
         return;
     }
+    if sc.wplan.iter().any(|w| matches!(w, WRule::BrokenOncePeerClosed)) {
+        // (what the client was sent before it left is not compared: it is gone)
+        if sc.client.close_after.is_none() || sc.client.eof_delay_ns == 0 || sc.wplan.len() != 1 || !sc.client.cuts.is_empty() {
+            return; // not the scenario as generated
+        }
+        *rep.faults.entry("hang_up_noticed_by_a_write_instead_of_the_read".into()).or_insert(0) += u64::from(var.faults.contains_key("write_after_the_peer_hung_up"));
+        // (only where the undisturbed execution itself ends with the client's hang-up: a server that had finished before it
+        // noticed, or whose final write is what fails, legitimately ends otherwise)
+        if refo.result == "ConnectionClosed" && refo.result != var.result {
+            rep.violate("same_outcome", format!("a client that hangs up after {} frames: noticed by the read the connection ends {}, noticed by the next write it ends {} {}", sc.client.close_after.map(|c| c.0).unwrap_or(0), refo.result, var.result, var.result_text));
+        }
+        return;
+    }
     if !precondition(var, sc) {
         *rep.probes.entry("precondition_not_met_skipped".into()).or_insert(0) += 1;
         return;
@@ -678,7 +702,7 @@ impl Check for C08 {
         }
         rep.sim_ns += refo.end_ns;
         rep.full_hash = rep.full_hash.rotate_left(13) ^ refo.full_hash();
-        rep.nontrivial = ["c2s_gated_segment", "c2s_frame_split", "c2s_frames_coalesced_in_one_read", "write_partial_accept", "write_pending_delay", "write_pending_event", "write_spurious_pending", "read_spurious_pending"]
+        rep.nontrivial = ["c2s_gated_segment", "c2s_frame_split", "c2s_frames_coalesced_in_one_read", "write_partial_accept", "write_pending_delay", "write_pending_event", "write_spurious_pending", "read_spurious_pending", "write_after_the_peer_hung_up"]
             .iter()
             .any(|k| var.faults.contains_key(*k));
         compare(sc, &refo, &var, &mut rep);
